@@ -1,6 +1,6 @@
 """C09 configuration for ./check (see checks/propcfg.py for the keys)."""
 CFG = {
-    "modules": ["VaxisModel.Props.C09", "VaxisModel.Witness.F111"],
+    "modules": ["VaxisModel.Props.C09"],
     "extractors": ["C09"],
     "drivers": ["C09"],
     "trivial_prefix": (),
@@ -15,7 +15,7 @@ CFG = {
     "level_text": "Key decoding/matching: all Props/C09 theorems proved for all inputs over the model of key.go tied to the source by "
                   "Gen/Keys.lean (tables, constants, labels; regenerated) and by correspondence of decodeKey/Matches/MatchString/String.",
     "level_note": "Proved for all masks/keys/unicode tables: match_strong_mods, locks_irrelevant, shift_forgiveness, decode_exact_*, "
-                  "self_match (table part by kernel decide), cross_protocol. Validated by correspondence only: the hand-transcribed "
+                  "self_match (every pressed chord, table parts by kernel decide), cross_protocol. Validated by correspondence only: the hand-transcribed "
                   "bodies of decodeKey/Matches/MatchString/String (0 mismatches required). Modelled not verified: unicode tables, parser.",
     "assumptions": ["binding strings and Key.Text are valid UTF-8 (modelled as code-point lists)",
                     "ModifierMask values are non-negative (decodeKey clamps)"],
